@@ -3,7 +3,7 @@
 // ASSUME: elements exposed by a growing resize() are unspecified (documented: "no initialization"); the model adopts whatever they are and requires them to stay stable afterwards
 // ASSUME: at(i) with i >= size() must throw (as std::vector::at): checked by declaring the throw path a cut and asserting that the call does not return
 // ASSUME: realloc/malloc never fail
-// OB: ob_pod_pair tier=quick unwind=9 timeout=120 params=17,17 param_limit=100 bounds="(100 of the 289 kind pairs, VERIF_SEED) PODResizeableArray<int>: 3 push_back (capacity 4) then every pair of ops from 17 kinds {push_back, resize 0/1/3/5, reserve 2/7, assign 2/0, insert-at-end 2/0, swap, move-construct, move-assign, clear, element write at symbolic index, at() out of range}; after every op size/empty/capacity, forward+reverse traversal, [], at, front/back, data, const views" desc="POD array equals a vector model"
+// OB: ob_pod_pair quick_limit=40 tier=quick unwind=9 timeout=120 params=17,17 param_limit=100 bounds="(100 of the 289 kind pairs, VERIF_SEED) PODResizeableArray<int>: 3 push_back (capacity 4) then every pair of ops from 17 kinds {push_back, resize 0/1/3/5, reserve 2/7, assign 2/0, insert-at-end 2/0, swap, move-construct, move-assign, clear, element write at symbolic index, at() out of range}; after every op size/empty/capacity, forward+reverse traversal, [], at, front/back, data, const views" desc="POD array equals a vector model"
 // OB: ob_pod_pair_all tier=thorough unwind=9 timeout=120 params=17,17 bounds="PODResizeableArray<int>: 3 push_back (capacity 4) then every pair of ops from 17 kinds {push_back, resize 0/1/3/5, reserve 2/7, assign 2/0, insert-at-end 2/0, swap, move-construct, move-assign, clear, element write at symbolic index, at() out of range}; after every op size/empty/capacity, forward+reverse traversal, [], at, front/back, data, const views" desc="POD array equals a vector model (all 289 kind pairs)"
 // OB: ob_pod_seq3 tier=thorough unwind=9 timeout=120 params=17,17,17 param_limit=600 bounds="PODResizeableArray<int>: 3 ops from the empty array (600 of 4913 kind-sequences, VERIF_SEED)" desc="POD array equals a vector model (from empty)"
 // OB: ob_pod_ctor tier=quick unwind=14 timeout=120 params=3,4 bounds="PODResizeableArray<int>(n) n in {0,1,3} / (first,last) with 0..3 elements; then push_back" desc="POD array constructors"
